@@ -726,6 +726,19 @@ func (c *Conn) WriteMessage(messageType MessageType, data []byte) error {
 	}
 
 	if len(data) > 0 {
+		if c.sendQueue != nil && c.sendQueueSize > 0 {
+			// a bounded send queue takes the message whole or not at
+			// all: frames queued before it fills up would leave the peer
+			// inside a fragmented message that never ends.
+			limit := c.Engine.MaxWebsocketFramePayloadSize
+			frames := 1
+			if limit > 0 {
+				frames = (len(data) + limit - 1) / limit
+			}
+			if len(c.sendQueue)+frames > int(c.sendQueueSize) {
+				return ErrMessageSendQuqueIsFull
+			}
+		}
 		sendOpcode := true
 		sendCompress := compress
 		for len(data) > 0 {
